@@ -149,7 +149,8 @@ def run(ctx, rep):
     rep.explanation = EXPLANATION
     rep.not_decided = NOT_DECIDED
     rep.trust("sha2::Sha512 (Digest::update) is chunking-invariant")
-    cfgs = ["full"] if ctx.tier == "quick" else ["full", "default", "simd"]
+    # the SIMD BLAKE2b backend has its own buffering code: it is part of every run
+    cfgs = ["full", "simd"] if ctx.tier == "quick" else ["full", "default", "simd"]
     for cfg in cfgs:
         check(ctx, rep, cfg)
 
